@@ -329,3 +329,13 @@ Proof.
     destruct (_ <=? _)%Z; [discriminate|]. intros E; inversion E; subst.
     now rewrite (load94_no_skip _ _ _ _ El).
 Qed.
+
+(* ---------- a line of commas is not a blank line (D32) ---------- *)
+Lemma comma_line_refused m st raw c0 rest :
+  raw = c0 :: rest -> c0 <> 59 ->
+  fields (commas_to_spaces (before_semicolon (lower raw))) = [] -> fields (before_semicolon (lower raw)) <> [] ->
+  line94 m st raw = None /\ line88 m st raw = None.
+Proof.
+  intros -> Hne Hf Hb. unfold line94, line88. rewrite !(raw_match c0 rest) by assumption. cbv zeta. rewrite Hf.
+  destruct (fields (before_semicolon (lower (c0 :: rest)))); [congruence|split; reflexivity].
+Qed.
